@@ -100,6 +100,19 @@ func hC14(n, L, vlen int) {
 		}
 		vAssert(!vReachable(db, k), "C14.next.key-not-owned-by-db-or-file")
 		vAssert(!vReachable(db, v), "C14.next.value-not-owned-by-db-or-file")
+		// key and value are separate pieces of memory: appending to one cannot touch the other
+		if cap(k) > 0 && cap(v) > 0 {
+			vAssert(!vSameObject(k, v), "C14.next.key-and-value-do-not-share-memory")
+		}
+		// what the iterator keeps queued for later calls must not be file-owned memory either
+		for _, q := range it.queue {
+			vAssert(!vReachable(db, q.key) && !vReachable(db, q.value), "C14.next.queued-items-not-owned-by-db-or-file")
+		}
+		for j := 0; j < nit; j++ {
+			if cap(k) > 0 && cap(itk[j]) > 0 {
+				vAssert(!vSameObject(k, itk[j]) && !vSameObject(k, itv[j]), "C14.next.results-of-different-calls-do-not-share-memory")
+			}
+		}
 		itk[nit], itv[nit] = k, v
 		nit++
 	}
